@@ -66,7 +66,7 @@ PROPS = {
         "timeout": 1500,
     },
     "C14": {
-        "lean_modules": ["JrpcProofs.Props.C14", "JrpcProofs.Facts.Locks", "JrpcProofs.Facts.Writers", "JrpcProofs.Facts.Cancel", "JrpcProofs.Facts.Stream"],
+        "lean_modules": ["JrpcProofs.Props.C14", "JrpcProofs.Facts.Locks", "JrpcProofs.Facts.Writers", "JrpcProofs.Facts.Cancel", "JrpcProofs.Facts.Stream", "JrpcProofs.Trans.NextWriter"],
         "race": True,
         "assumptions": [
             "gorilla/websocket writes a message as one or more frames of one message (reassembled by the proxy) and detects overlapping writers by panicking",
@@ -91,7 +91,7 @@ PROPS = {
         "timeout": 1500,
     },
     "C02": {
-        "lean_modules": ["JrpcProofs.Props.C02", "JrpcProofs.Props.Epoch", "JrpcProofs.Lemmas.Corr", "JrpcProofs.Facts.Corr", "JrpcProofs.Facts.Frames", "JrpcProofs.Facts.OneShot", "JrpcProofs.Facts.Writers", "JrpcProofs.Facts.Call", "JrpcProofs.Facts.Interp", "JrpcProofs.Facts.ErrTypes", "JrpcProofs.Trans.NormalizeID", "JrpcProofs.Facts.Cancel"],
+        "lean_modules": ["JrpcProofs.Props.C02", "JrpcProofs.Props.Epoch", "JrpcProofs.Lemmas.Corr", "JrpcProofs.Facts.Corr", "JrpcProofs.Facts.Frames", "JrpcProofs.Facts.OneShot", "JrpcProofs.Facts.Writers", "JrpcProofs.Facts.Call", "JrpcProofs.Facts.Interp", "JrpcProofs.Facts.ErrTypes", "JrpcProofs.Trans.NormalizeID", "JrpcProofs.Facts.Cancel", "JrpcProofs.Trans.NextWriter"],
         "assumptions": [
             "hooks only delay goroutines; two log entries written by different goroutines around one channel rendezvous may come in either order and are reconciled by the replayer (tau steps are counted in the evidence)",
             "ids of calls that are inside doRequest at the same time differ (id counter; int64 to float64 keys are injective below 2^53 calls)",
@@ -138,7 +138,7 @@ PROPS = {
         ],
     },
     "C16": {
-        "lean_modules": ["JrpcProofs.Props.C16", "JrpcProofs.Props.Epoch", "JrpcProofs.Facts.Reverse", "JrpcProofs.Facts.Corr", "JrpcProofs.Facts.Dispatch", "JrpcProofs.Facts.Naming", "JrpcProofs.Facts.Cancel", "JrpcProofs.Facts.Frames", "JrpcProofs.Trans.Naming"],
+        "lean_modules": ["JrpcProofs.Props.C16", "JrpcProofs.Props.Epoch", "JrpcProofs.Facts.Reverse", "JrpcProofs.Facts.Corr", "JrpcProofs.Facts.Dispatch", "JrpcProofs.Facts.Naming", "JrpcProofs.Facts.Cancel", "JrpcProofs.Facts.Frames", "JrpcProofs.Trans.Naming", "JrpcProofs.Trans.NextWriter"],
         "assumptions": [
             "context.WithValue / Value and handler-context derivation are Go's (modelled as: a handler serving connection c sees exactly the value stored for c)",
             "'gone' means the server noticed the loss (FIN, RST, client close): the server side configures no timeout, so a silent peer is never noticed there (that is C17's territory, client side only)",
